@@ -89,7 +89,7 @@ pub fn gen_probe_spec(c: &mut Chooser, allow_dispose: bool) -> ProbeSpec {
             policy.push(
                 [React::Terminate, React::Terminate, React::Error, React::PullTerminate, React::PullError][c.choose(5)],
             );
-            ProbeSpec { policy, rest: base, pull_cap: 1000, attach: None, poke: None, feed: None, late_pulls: false, drop_talkback: false }
+            ProbeSpec { policy, rest: base, pull_cap: 1000, attach: None, poke: None, feed: None, only_attached: false, late_pulls: false, drop_talkback: false }
         },
         _ => {
             let n = 1 + c.choose(6);
@@ -115,7 +115,7 @@ pub fn gen_probe_spec(c: &mut Chooser, allow_dispose: bool) -> ProbeSpec {
                 policy.push(r);
             }
             let rest = [React::Nothing, React::Pull][c.choose(2)];
-            ProbeSpec { policy, rest, pull_cap: 1000, attach: None, poke: None, feed: None, late_pulls: false, drop_talkback: false }
+            ProbeSpec { policy, rest, pull_cap: 1000, attach: None, poke: None, feed: None, only_attached: false, late_pulls: false, drop_talkback: false }
         },
     }
 }
@@ -231,7 +231,7 @@ fn gen_huge_merge(c: &mut Chooser) -> CaseSpec {
         pspecs.push(PuppetSpec { mode: Mode::Listen, late: false, fin: Fin::Never, burst: 0, eager_end: false, per_pull: 1, on_stop: None, on_stop2: None, feedback: None, on_pull: None });
         lens.push(if talkative.contains(&i) { 1 + c.choose(2) } else { 0 });
     }
-    let probe = ProbeSpec { policy: vec![if c.chance(1, 2) { React::Pull } else { React::Nothing }], rest: React::Nothing, pull_cap: 4, attach: None, poke: None, feed: None, late_pulls: false, drop_talkback: false };
+    let probe = ProbeSpec { policy: vec![if c.chance(1, 2) { React::Pull } else { React::Nothing }], rest: React::Nothing, pull_cap: 4, attach: None, poke: None, feed: None, only_attached: false, late_pulls: false, drop_talkback: false };
     CaseSpec { topo: Topo::Merge(n), pspecs, lens, probe_specs: vec![probe], max_steps: 4 + c.choose(6), drain: false, credit_env: false, weights: [8, 5, 2, 1, 1, 4] }
 }
 
@@ -570,6 +570,8 @@ pub fn gen_case_full(c: &mut Chooser, op: &str, prop: &str, small: bool, deep: b
             let k = 1 + c.choose(3);
             probe_specs[0].attach = Some((t, k, 2));
             probe_specs[0].poke = Some((t, k, 1, [React::Terminate, React::Error, React::Pull][c.choose(3)]));
+            // the newcomer waits for that handler (the driver does not subscribe it by itself)
+            probe_specs[2].only_attached = c.chance(2, 3);
         }
     }
     if let Topo::Share(n) = &topo {
@@ -648,6 +650,9 @@ pub fn enabled(b: &Built, spec: &CaseSpec) -> Vec<(Act, u32)> {
     let mut v = vec![];
     for (pi, p) in b.probes.iter().enumerate() {
         if !p.is_subscribed() {
+            if b.probe_specs[pi].only_attached {
+                continue;
+            }
             v.push((Act::Subscribe(pi), w[5]));
         } else if !p.can_act() && b.probe_specs[pi].late_pulls {
             let e = b.world.edge(p.edge());
